@@ -515,11 +515,13 @@ impl ArchiveFooter {
         let len = u64::from(src.read_u32::<LittleEndian>()?);
 
         // Prepare for deserialization
-        src.seek(SeekFrom::Start(pos - len))?;
+        let footer_start = pos.checked_sub(len).ok_or(Error::DeserializationError)?;
+        src.seek(SeekFrom::Start(footer_start))?;
 
         // Read files_info
+        // The footer is `len` bytes long: nothing bigger can be legitimately asked for
         let files_info: HashMap<String, FileInfo> = match bincode::options()
-            .with_limit(BINCODE_MAX_DESERIALIZE)
+            .with_limit(std::cmp::min(len, BINCODE_MAX_DESERIALIZE))
             .with_fixint_encoding()
             .deserialize_from(&mut src.take(len))
         {
